@@ -205,8 +205,69 @@ func checkC07(c *Ctx, r *Report) {
 	// node of a field is the parsed declaration itself, embedding is decided by Go's own rule
 	ruleEach(c, r, "C07.f", "(core/metadata.StructMeta).Reduce",
 		func(fi *FuncInfo) func(ast.Expr) bool { return w.rangeOverField(fi, "core/metadata.StructMeta.Fields") }, "s.Fields",
-		func(fi *FuncInfo) func(ast.Node) bool { return w.callPred(fi, "(core/metadata.FieldMeta).Reduce") }, "field.Reduce", nil, true,
-		"every field of a struct declaration is reduced into the model (no field is skipped by name, kind or visibility)")
+		func(fi *FuncInfo) func(ast.Node) bool { return w.callPred(fi, "(core/metadata.FieldMeta).Reduce") }, "field.Reduce",
+		func(fi *FuncInfo) []skipSpec {
+			return []skipSpec{{Cond: func(e ast.Expr) bool { return len(jsonVisibilityGaps(w.exprAtomsDeep(fi, e))) == 0 }, Pol: false, Desc: "the field is not JSON-visible"}}
+		}, true,
+		"every JSON-visible field of a struct declaration is reduced into the model (the only skip: unexported non-embedded fields and fields tagged json:\"-\")")
+	// ... and that skip exists and is exactly Go's rule: a property for a field encoding/json never
+	// writes (or under a name it does not use) describes a document the server does not produce
+	if fi := need(c, r, "C07.f", "(core/metadata.StructMeta).Reduce"); fi != nil {
+		viol := "no skip of JSON-invisible fields in the loop over the declared fields"
+		var sites []string
+		for _, sk := range w.skipSites("core/metadata") {
+			if sk.Fn != fi.Key || !strings.Contains(sk.Over, "FieldMeta") {
+				continue
+			}
+			sites = append(sites, w.pos(sk.Pos))
+			if gaps := jsonVisibilityGaps(sk.Atoms); len(gaps) == 0 {
+				viol = ""
+			} else if viol != "" {
+				viol = fmt.Sprintf("%s: the skip of invisible fields does not consult %v: properties = the fields encoding/json writes (exported or embedded, not tagged json:\"-\")", w.pos(sk.Pos), gaps)
+			}
+		}
+		if len(sites) == 0 {
+			sites = []string{w.pos(fi.Decl.Pos())}
+		}
+		o := r.add("C07.c", "guardedby", fi.Key+":json-visible-fields-only", "a struct's properties are its JSON-visible fields: unexported (non-embedded) fields and fields tagged json:\"-\" are left out", []string{fi.Key}, sites, viol)
+		o.NonTrivial = true
+	}
+	// the JSON name: the tag's name part, the Go name when the tag has none (`json:",omitempty"`)
+	if fi := need(c, r, "C07.c", "generator/swagen/swagtool.GetJsonNameFromTag"); fi != nil {
+		viol := "GetJsonNameFromTag never falls back to the Go name when the tag's name part is empty (`json:\",omitempty\"` would yield a property named \"\")"
+		var sites []string
+		for _, ex := range exitsOf(fi.SSA) {
+			if ex.Ret == nil || len(ex.Ret.Results) != 1 {
+				continue
+			}
+			isDefault := false
+			for _, ov := range w.originValues(unspill(ex.Ret.Results[0], ex.Block)) {
+				if p, ok := ov.(*ssa.Parameter); ok && len(fi.SSA.Params) == 2 && p == fi.SSA.Params[1] {
+					isDefault = true
+				}
+			}
+			if !isDefault {
+				continue
+			}
+			for _, f := range dominatingFacts(ex.Block) {
+				cnd, pol := unwrapNot(f.Cond, f.Pol)
+				bo, ok := cnd.(*ssa.BinOp)
+				if !ok {
+					continue
+				}
+				a := sliceOf(cnd)
+				emptyTest := (bo.Op == token.EQL && pol || bo.Op == token.NEQ && !pol) && (hasConst(a, `""`) || (a.Builtin["len"] && hasConst(a, "0")))
+				if emptyTest && a.Calls["strings.Split"] {
+					viol = ""
+					sites = append(sites, w.pos(retPos(ex)))
+				}
+			}
+		}
+		if len(sites) == 0 {
+			sites = []string{w.pos(fi.Decl.Pos())}
+		}
+		r.add("C07.c", "guardedby", fi.Key+":empty-name-falls-back", "a property is named by the json tag's name part, or by the Go field name when that part is empty", []string{fi.Key}, sites, viol)
+	}
 	{
 		viol := ""
 		var sites []string
@@ -654,4 +715,19 @@ func checkEnumAliasShape(c *Ctx, r *Report, ver, pkg, enumFn string) {
 		func(fi *FuncInfo) func(ast.Node) bool { return w.appendTo(fi, w.resultSlice(fi)) }, "append(enumValues)", nil, false,
 		ver+": every declared constant is listed")
 	ruleFieldFlow(c, r, ffSpec{Clause: "C07.c", Fn: pkg + ".generateAliasSpec", Owner: schemaT, Field: "Type", Must: []string{"definitions.NakedAliasMetadata.Type"}, MustCalls: []string{"generator/swagen/swagtool.ToOpenApiType"}, Desc: ver + ": alias schema type = mapped underlying primitive"})
+}
+
+// jsonVisibilityGaps: what a "this field is not serialised" decision must consult and does not.
+func jsonVisibilityGaps(a *Atoms) []string {
+	var gaps []string
+	if !a.hasCall("go/ast.IsExported") && !a.hasCall("go/token.IsExported") && !a.hasCall("(*go/ast.Ident).IsExported") && !a.hasCall("(*go/types.Var).Exported") {
+		gaps = append(gaps, "whether the field is exported")
+	}
+	if !a.Fields["core/metadata.FieldMeta.IsEmbedded"] {
+		gaps = append(gaps, "FieldMeta.IsEmbedded (the fields of an embedded struct are promoted whatever its type is called)")
+	}
+	if !a.Lits[`"-"`] || !a.Lits[`"json"`] {
+		gaps = append(gaps, "the json tag being \"-\"")
+	}
+	return gaps
 }
